@@ -1,6 +1,10 @@
 import Lean
 import Lemmas.Hoare
 import Lemmas.Util
+import Lemmas.StrSpecs
+import Lemmas.Strip
+import Lemmas.Unicode
+import Lemmas.Int
 open Py Std.Do Lean Elab Tactic
 
 /-- clear the join-point definitions `mvcgen` leaves in the context -/
